@@ -227,4 +227,13 @@ def v2NegativeWitness : Bytes := [65, 86, 58, 76, 47, 65, 67, 58, 72, 47, 65, 11
   47, 65, 82, 58, 78, 68]
 
 
+/-- "CVSS:3.1/AV:P/AC:L/PR:N/UI:N/S:U/C:H/I:H/A:H/AV:N": not a vector (AV twice) -/
+def osvDupWitnessA : Bytes := [67, 86, 83, 83, 58, 51, 46, 49, 47, 65, 86, 58, 80, 47, 65, 67, 58, 76, 47, 80, 82, 58, 78, 47, 85, 73, 58, 78, 47, 83, 58, 85, 47, 67, 58, 72, 47, 73, 58, 72, 47, 65, 58, 72, 47, 65, 86, 58, 78]
+
+/-- "CVSS:3.1/AV:N/AC:L/PR:N/UI:N/S:U/C:H/I:H/A:H/AV:P": the same pieces, the first and the last exchanged -/
+def osvDupWitnessB : Bytes := [67, 86, 83, 83, 58, 51, 46, 49, 47, 65, 86, 58, 78, 47, 65, 67, 58, 76, 47, 80, 82, 58, 78, 47, 85, 73, 58, 78, 47, 83, 58, 85, 47, 67, 58, 72, 47, 73, 58, 72, 47, 65, 58, 72, 47, 65, 86, 58, 80]
+
+/-- "CVSS:3.1/E:X/RL:X/RC:X/CR:X/IR:X/AR:X/MAV:X/MAC:X": eight metrics, no base metric -/
+def osvNoBaseWitness : Bytes := [67, 86, 83, 83, 58, 51, 46, 49, 47, 69, 58, 88, 47, 82, 76, 58, 88, 47, 82, 67, 58, 88, 47, 67, 82, 58, 88, 47, 73, 82, 58, 88, 47, 65, 82, 58, 88, 47, 77, 65, 86, 58, 88, 47, 77, 65, 67, 58, 88]
+
 end ClairModel.CvssSpec
